@@ -40,7 +40,21 @@ pub enum Step {
     Eof,
     /// only a length prefix with this (illegal) value
     BadLen(i32),
+    /// raw plaintext bytes written as one segment (byte-level scenarios)
+    Raw(Vec<u8>),
+    /// raw bytes that carry (a mutated framing of) this payload: the client keeps its own
+    /// bookkeeping (phase, presented cookies) as if it had sent the payload
+    RawAs(Vec<u8>, Vec<u8>),
+    /// the bytes of `inner` (a frame-producing step) sent in pieces cut at `cuts`, with `events`
+    /// executed once that many bytes of the frame have been sent
+    Seg { inner: Box<Step>, cuts: Vec<usize>, events: Vec<(usize, Step)> },
+    /// switch the write throttle of the server's transport to this schedule from now on
+    Throttle(Vec<WAns>),
 }
+
+/// answers of the throttled server-side transport to `poll_write`
+#[derive(Clone, Debug, PartialEq)]
+pub enum WAns { Pending, Accept(usize) }
 
 #[derive(Clone)]
 pub struct Scenario {
@@ -55,6 +69,8 @@ pub struct Scenario {
     pub real_localization: Option<(String, Vec<(String, Vec<(String, String)>)>)>,
 }
 
+pub type WSched = Arc<Mutex<(std::collections::VecDeque<WAns>, Option<Waker>)>>;
+
 pub struct Outcome {
     pub request: String,
     pub observed: String,
@@ -67,15 +83,22 @@ pub struct Outcome {
     pub undecodable: bool,
     /// for every event: index of the scenario step after which it was observed
     pub event_steps: Vec<usize>,
+    /// byte-level request line (`conn1.run …`) and its inputs
+    pub request1: String,
+    pub max_alloc: usize,
+    pub panicked: bool,
 }
 
 #[derive(Clone, Debug, PartialEq)]
 pub enum Event { Send(CbPacket), Call(String) }
 
 /// counts the bytes the server wrote
-struct CountWrite<S> { inner: S, n: Arc<AtomicUsize> }
+struct CountWrite<S> { inner: S, n: Arc<AtomicUsize>, sched: WSched }
 impl<S: AsyncWrite + Unpin> AsyncWrite for CountWrite<S> {
     fn poll_write(mut self: Pin<&mut Self>, cx: &mut Context<'_>, buf: &[u8]) -> Poll<std::io::Result<usize>> {
+        // throttle: an empty schedule passes everything through
+        let ans = { let mut g = self.sched.lock().unwrap(); let a = g.0.pop_front(); if a == Some(WAns::Pending) { g.1 = Some(cx.waker().clone()); } a };
+        let buf = match ans { Some(WAns::Pending) => return Poll::Pending, Some(WAns::Accept(k)) => &buf[..k.max(1).min(buf.len())], None => buf };
         let r = Pin::new(&mut self.inner).poll_write(cx, buf);
         if let Poll::Ready(Ok(k)) = &r { self.n.fetch_add(*k, Ordering::SeqCst); }
         r
@@ -116,16 +139,194 @@ async fn settle() {
     for _ in 0..4 { tokio::task::yield_now().await; }
 }
 
+struct Runner<'a> {
+    sc: &'a Scenario,
+    other_key: &'a rsa::RsaPublicKey,
+    client: tokio::io::DuplexStream,
+    gate: Arc<tokio::sync::Semaphore>,
+    wsched: WSched,
+    log: Log,
+    enc: Option<(RefCfb8, RefCfb8)>,
+    rx_plain: Vec<u8>,
+    parsed_upto: usize,
+    phase: ClientPhase,
+    packets: Vec<(usize, CbPacket)>,
+    packet_step: Vec<usize>,
+    call_step: Vec<usize>,
+    inputs: Vec<String>,
+    inputs1: Vec<String>,
+    rsa_pairs: Vec<(Vec<u8>, Option<Vec<u8>>)>,
+    token: Option<Vec<u8>>,
+    ka_ids: Vec<u64>,
+    undecodable: bool,
+    presented: Vec<Vec<u8>>,
+    step_i: usize,
+}
+
+impl Runner<'_> {
+    /// payload (id ‖ body) of a frame-producing step, built from what the server sent so far
+    fn payload_of(&mut self, step: &Step) -> Option<Vec<u8>> {
+        match step {
+            Step::Frame(p) => Some(p.clone()),
+            Step::KeepAlive(e) => {
+                let id = match e {
+                    Echo::Last => self.ka_ids.last().copied().unwrap_or(7),
+                    Echo::Nth(n) => self.ka_ids.get(*n).copied().unwrap_or(11),
+                    Echo::Wrong => self.ka_ids.last().map_or(13, |x| x ^ 0x5555),
+                    Echo::LastPlusOne => self.ka_ids.last().map_or(17, |x| x + 1),
+                };
+                let mut p = vec![0x04];
+                p.extend(id.to_be_bytes());
+                Some(p)
+            }
+            Step::EncResp(kind) => {
+                let tok = self.token.clone().unwrap_or_else(|| vec![0u8; 32]);
+                let server_pub = &passage_protocol::crypto::KEY_PAIR.1;
+                let e = |k: &rsa::RsaPublicKey, v: &[u8]| passage_protocol::crypto::encrypt(k, v).expect("rsa encrypt");
+                let ss = &self.sc.shared_secret;
+                let (sct, tct) = match kind {
+                    EncKind::Honest => (e(server_pub, ss), e(server_pub, &tok)),
+                    EncKind::WrongToken => { let mut t = tok.clone(); t[5] ^= 1; (e(server_pub, ss), e(server_pub, &t)) }
+                    EncKind::StaleToken => (e(server_pub, ss), e(server_pub, &[0xabu8; 32])),
+                    EncKind::OtherKey => (e(self.other_key, ss), e(self.other_key, &tok)),
+                    EncKind::Garbage => (vec![0x5a; 128], e(server_pub, &tok)),
+                    EncKind::GarbageToken => (e(server_pub, ss), vec![1, 2, 3]),
+                    EncKind::SecretLen(n) => (e(server_pub, &vec![0x42u8; *n]), e(server_pub, &tok)),
+                };
+                for ct in [&sct, &tct] {
+                    let pt = passage_protocol::crypto::decrypt(&passage_protocol::crypto::KEY_PAIR.0, ct).ok();
+                    self.rsa_pairs.push((ct.clone(), pt));
+                }
+                let mut p = vec![0x01];
+                p.extend(ref_varint(sct.len() as i32)); p.extend(&sct);
+                p.extend(ref_varint(tct.len() as i32)); p.extend(&tct);
+                Some(p)
+            }
+            _ => None,
+        }
+    }
+
+    async fn write_plain(&mut self, bytes: &[u8]) {
+        self.inputs1.push(format!("R{}", &hex(bytes)[1..]));
+        let b = match self.enc.as_mut() { Some((c2s, _)) => c2s.enc(bytes), None => bytes.to_vec() };
+        let _ = self.client.write_all(&b).await;
+    }
+
+    fn after_frame(&mut self, step: &Step, payload: &[u8]) {
+        // the client switches its cipher right after an Encryption Response carrying a 16-byte secret
+        if let Step::EncResp(k) = step {
+            let sec = match k { EncKind::SecretLen(n) => vec![0x42u8; *n], _ => self.sc.shared_secret.clone() };
+            if sec.len() == 16 && self.enc.is_none() { self.enc = Some((RefCfb8::new(&sec), RefCfb8::new(&sec))); }
+        }
+        if self.phase == ClientPhase::Handshake && payload.first() == Some(&0) {
+            if let Some(next) = decode::handshake_next_state(payload) { self.phase = if next == 1 { ClientPhase::Status } else { ClientPhase::Login }; }
+        }
+        self.presented.push(payload.to_vec());
+    }
+
+    async fn settle_and_drain(&mut self) {
+        if let Some(w) = self.wsched.lock().unwrap().1.take() { w.wake(); }
+        settle().await;
+        let mut cx = Context::from_waker(Waker::noop());
+        loop {
+            let mut tmp = [0u8; 8192];
+            let mut rb = ReadBuf::new(&mut tmp);
+            match Pin::new(&mut self.client).poll_read(&mut cx, &mut rb) {
+                Poll::Ready(Ok(())) if !rb.filled().is_empty() => {
+                    let chunk = rb.filled().to_vec();
+                    // bytes after the switch are decrypted with the secret the CLIENT chose
+                    let plain = match self.enc.as_mut() { Some((_, s2c)) => s2c.dec(&chunk), None => chunk };
+                    self.rx_plain.extend(plain);
+                }
+                _ => break,
+            }
+        }
+        while !self.undecodable {
+            let Some((len, used)) = decode::read_varint(&self.rx_plain[self.parsed_upto..]) else { break };
+            if len <= 0 { self.undecodable = true; break; }
+            if self.rx_plain.len() < self.parsed_upto + used + len as usize { break; }
+            let payload = &self.rx_plain[self.parsed_upto + used..self.parsed_upto + used + len as usize];
+            match decode::decode_clientbound(self.phase, payload) {
+                Some(p) => {
+                    match &p {
+                        CbPacket::EncRequest { token: t, .. } => self.token = Some(t.clone()),
+                        CbPacket::KeepAlive(id) => self.ka_ids.push(*id),
+                        CbPacket::LoginSuccess { .. } => self.phase = ClientPhase::Configuration,
+                        _ => {}
+                    }
+                    self.packets.push((self.parsed_upto, p));
+                    self.packet_step.push(self.step_i);
+                }
+                None => { self.undecodable = true; }
+            }
+            self.parsed_upto += used + len as usize;
+        }
+        let n = self.log.lock().unwrap().len();
+        while self.call_step.len() < n { self.call_step.push(self.step_i); }
+    }
+
+    async fn event(&mut self, step: &Step) {
+        match step {
+            Step::Tick => { self.inputs.push("T".into()); self.inputs1.push("T".into()); tokio::time::advance(Duration::from_secs(16)).await; }
+            Step::AdapterDone => {
+                // completes the adapter call that is blocked right now; without one it is a no-op, as in the model
+                self.inputs.push("A".into()); self.inputs1.push("A".into());
+                if mocks::WAITING.load(Ordering::SeqCst) > 0 { self.gate.add_permits(1); }
+            }
+            Step::Eof => { self.inputs.push("E".into()); self.inputs1.push("E".into()); let _ = self.client.shutdown().await; }
+            Step::Throttle(s) => { let mut g = self.wsched.lock().unwrap(); g.0 = s.iter().cloned().collect(); }
+            _ => {}
+        }
+    }
+
+    async fn run_step(&mut self, step: &Step) {
+        match step {
+            Step::Tick | Step::AdapterDone | Step::Eof | Step::Throttle(_) => { self.event(step).await; self.settle_and_drain().await; }
+            Step::BadLen(n) => { self.inputs.push("B".into()); let b = ref_varint(*n); self.write_plain(&b).await; self.settle_and_drain().await; }
+            Step::Raw(b) => { self.inputs.push("?raw".into()); self.write_plain(b).await; self.settle_and_drain().await; }
+            Step::RawAs(b, p) => { self.inputs.push("?raw".into()); self.write_plain(b).await; self.after_frame(step, p); self.settle_and_drain().await; }
+            Step::Frame(_) | Step::EncResp(_) | Step::KeepAlive(_) => {
+                let p = self.payload_of(step).unwrap();
+                self.inputs.push(format!("F{}", &hex(&p)[1..]));
+                let f = frame(&p);
+                self.write_plain(&f).await;
+                self.after_frame(step, &p);
+                self.settle_and_drain().await;
+            }
+            Step::Seg { inner, cuts, events } => {
+                let Some(p) = self.payload_of(inner) else { return };
+                self.inputs.push("?seg".into());
+                let f = frame(&p);
+                let mut points: Vec<usize> = cuts.iter().copied().filter(|c| *c > 0 && *c < f.len()).collect();
+                points.extend(events.iter().map(|(o, _)| (*o).min(f.len())).filter(|o| *o > 0 && *o < f.len()));
+                points.sort_unstable(); points.dedup(); points.push(f.len());
+                let mut at = 0;
+                for e in events.iter().filter(|(o, _)| *o == 0) { self.event(&e.1).await; self.settle_and_drain().await; }
+                for pt in points {
+                    self.write_plain(&f[at..pt]).await;
+                    at = pt;
+                    if pt == f.len() { self.after_frame(inner, &p); }
+                    self.settle_and_drain().await;
+                    for e in events.iter().filter(|(o, _)| (*o).min(f.len()) == pt && *o > 0) { self.event(&e.1).await; self.settle_and_drain().await; }
+                }
+            }
+        }
+    }
+}
+
 async fn execute_async(sc: &Scenario, other_key: &rsa::RsaPublicKey) -> Outcome {
     let wall_before = wall();
-    let (mut client, server_half) = tokio::io::duplex(1 << 20);
+    let (client, server_half) = tokio::io::duplex(1 << 20);
     let written = Arc::new(AtomicUsize::new(0));
     let log: Log = Arc::new(Mutex::new(vec![]));
     let gate = Arc::new(tokio::sync::Semaphore::new(0));
     let m = Mocks::new(sc.verdicts.clone(), log.clone(), written.clone(), gate.clone());
-    let server_stream = CountWrite { inner: server_half, n: written.clone() };
+    let wsched: WSched = Arc::new(Mutex::new((Default::default(), None)));
+    let server_stream = CountWrite { inner: server_half, n: written.clone(), sched: wsched.clone() };
     let (secret, expiry, max_len, addr) = (sc.secret.clone(), sc.expiry, sc.max_len, sc.client_addr);
     let real_loc = sc.real_localization.clone();
+    crate::util::alloc_reset();
+    mocks::WAITING.store(0, Ordering::SeqCst);
     let task = tokio::spawn(async move {
         macro_rules! go { ($loc:expr) => {{
             let mut c = Connection::new(server_stream, Arc::new(m.status), Arc::new(m.discovery), Arc::new(m.filter), Arc::new(m.strategy), Arc::new(m.auth), Arc::new($loc))
@@ -141,124 +342,22 @@ async fn execute_async(sc: &Scenario, other_key: &rsa::RsaPublicKey) -> Outcome 
         }
     });
 
-    let mut enc: Option<(RefCfb8, RefCfb8)> = None; // (client->server, server->client)
-    let mut rx_plain: Vec<u8> = vec![];
-    let mut rx_raw_total = 0usize;
-    let mut phase = ClientPhase::Handshake;
-    let mut packets: Vec<(usize, CbPacket)> = vec![]; // (start offset on the wire, packet)
-    let mut packet_step: Vec<usize> = vec![];
-    let mut call_step: Vec<usize> = vec![];
-    let mut inputs: Vec<String> = vec![];
-    let mut rsa_pairs: Vec<(Vec<u8>, Option<Vec<u8>>)> = vec![];
-    let mut token: Option<Vec<u8>> = None;
-    let mut ka_ids: Vec<u64> = vec![];
-    let mut undecodable = false;
-    let mut frame_starts: Vec<usize> = vec![];
-    let mut parsed_upto = 0usize; // offset in rx_plain
-
-    for (step_i, step) in sc.steps.iter().enumerate() {
-        let mut send_frame = |payload: Vec<u8>, inputs: &mut Vec<String>| { inputs.push(format!("F{}", &hex(&payload)[1..])); frame(&payload) };
-        let bytes: Option<Vec<u8>> = match step {
-            Step::Frame(p) => Some(send_frame(p.clone(), &mut inputs)),
-            Step::BadLen(n) => { inputs.push("B".into()); Some(ref_varint(*n)) }
-            Step::KeepAlive(e) => {
-                let id = match e {
-                    Echo::Last => ka_ids.last().copied().unwrap_or(7),
-                    Echo::Nth(n) => ka_ids.get(*n).copied().unwrap_or(11),
-                    Echo::Wrong => ka_ids.last().map_or(13, |x| x ^ 0x5555),
-                    Echo::LastPlusOne => ka_ids.last().map_or(17, |x| x + 1),
-                };
-                let mut p = vec![0x04];
-                p.extend(id.to_be_bytes());
-                Some(send_frame(p, &mut inputs))
-            }
-            Step::EncResp(kind) => {
-                let tok = token.clone().unwrap_or_else(|| vec![0u8; 32]);
-                let server_pub = &passage_protocol::crypto::KEY_PAIR.1;
-                let e = |k: &rsa::RsaPublicKey, v: &[u8]| passage_protocol::crypto::encrypt(k, v).expect("rsa encrypt");
-                let (sct, tct) = match kind {
-                    EncKind::Honest => (e(server_pub, &sc.shared_secret), e(server_pub, &tok)),
-                    EncKind::WrongToken => { let mut t = tok.clone(); t[5] ^= 1; (e(server_pub, &sc.shared_secret), e(server_pub, &t)) }
-                    EncKind::StaleToken => (e(server_pub, &sc.shared_secret), e(server_pub, &[0xabu8; 32])),
-                    EncKind::OtherKey => (e(other_key, &sc.shared_secret), e(other_key, &tok)),
-                    EncKind::Garbage => (vec![0x5a; 128], e(server_pub, &tok)),
-                    EncKind::GarbageToken => (e(server_pub, &sc.shared_secret), vec![1, 2, 3]),
-                    EncKind::SecretLen(n) => (e(server_pub, &vec![0x42u8; *n]), e(server_pub, &tok)),
-                };
-                for ct in [&sct, &tct] {
-                    let pt = passage_protocol::crypto::decrypt(&passage_protocol::crypto::KEY_PAIR.0, ct).ok();
-                    rsa_pairs.push((ct.clone(), pt));
-                }
-                let mut p = vec![0x01];
-                p.extend(ref_varint(sct.len() as i32)); p.extend(&sct);
-                p.extend(ref_varint(tct.len() as i32)); p.extend(&tct);
-                let f = send_frame(p, &mut inputs);
-                Some(f)
-            }
-            Step::Tick => { inputs.push("T".into()); tokio::time::advance(Duration::from_secs(16)).await; None }
-            Step::AdapterDone => { inputs.push("A".into()); gate.add_permits(1); None }
-            Step::Eof => { inputs.push("E".into()); let _ = client.shutdown().await; None }
-        };
-        if let Some(mut b) = bytes {
-            if let Some((c2s, _)) = enc.as_mut() { b = c2s.enc(&b); }
-            let _ = client.write_all(&b).await;
-        }
-        // the client switches its cipher right after an Encryption Response carrying a 16-byte secret
-        if let Step::EncResp(k) = step {
-            let sec = match k { EncKind::SecretLen(n) => vec![0x42u8; *n], _ => sc.shared_secret.clone() };
-            if sec.len() == 16 && enc.is_none() { enc = Some((RefCfb8::new(&sec), RefCfb8::new(&sec))); }
-        }
-        settle().await;
-        // drain what the server wrote
-        let mut cx = Context::from_waker(Waker::noop());
-        loop {
-            let mut tmp = [0u8; 8192];
-            let mut rb = ReadBuf::new(&mut tmp);
-            match Pin::new(&mut client).poll_read(&mut cx, &mut rb) {
-                Poll::Ready(Ok(())) if !rb.filled().is_empty() => {
-                    let chunk = rb.filled().to_vec();
-                    rx_raw_total += chunk.len();
-                    // bytes after the switch are decrypted with the secret the CLIENT chose
-                    let plain = match enc.as_mut() { Some((_, s2c)) => s2c.dec(&chunk), None => chunk };
-                    rx_plain.extend(plain);
-                }
-                _ => break,
-            }
-        }
-        let _ = rx_raw_total;
-        // parse complete frames
-        loop {
-            let Some((len, used)) = decode::read_varint(&rx_plain[parsed_upto..]) else { break };
-            if len <= 0 || rx_plain.len() < parsed_upto + used + len as usize { if len <= 0 { undecodable = true; } break; }
-            let payload = &rx_plain[parsed_upto + used..parsed_upto + used + len as usize];
-            match decode::decode_clientbound(phase, payload) {
-                Some(p) => {
-                    match &p {
-                        CbPacket::EncRequest { token: t, .. } => token = Some(t.clone()),
-                        CbPacket::KeepAlive(id) => ka_ids.push(*id),
-                        CbPacket::LoginSuccess { .. } => phase = ClientPhase::Configuration,
-                        _ => {}
-                    }
-                    frame_starts.push(parsed_upto);
-                    packets.push((parsed_upto, p));
-                    packet_step.push(step_i);
-                }
-                None => { undecodable = true; }
-            }
-            parsed_upto += used + len as usize;
-            if undecodable { break; }
-        }
-        { let n = log.lock().unwrap().len(); while call_step.len() < n { call_step.push(step_i); } }
-        if let Some(Step::Frame(p)) = Some(step) {
-            // the client's own phase follows the handshake it sent
-            if phase == ClientPhase::Handshake && p.first() == Some(&0) {
-                if let Some(next) = decode::handshake_next_state(p) { phase = if next == 1 { ClientPhase::Status } else { ClientPhase::Login }; }
-            }
-        }
+    let mut r = Runner { sc, other_key, client, gate, wsched: wsched.clone(), log: log.clone(), enc: None, rx_plain: vec![], parsed_upto: 0,
+        phase: ClientPhase::Handshake, packets: vec![], packet_step: vec![], call_step: vec![], inputs: vec![], inputs1: vec![],
+        rsa_pairs: vec![], token: None, ka_ids: vec![], undecodable: false, presented: vec![], step_i: 0 };
+    for (i, step) in sc.steps.iter().enumerate() {
+        r.step_i = i;
+        r.run_step(step).await;
     }
-    settle().await;
-    let result = if task.is_finished() { match task.await { Ok(r) => result_name(&r), Err(e) => if e.is_panic() { "panic".into() } else { "cancelled".into() } } } else { task.abort(); "running".into() };
+    // let everything still pending in the throttled transport through
+    r.step_i = sc.steps.len();
+    { wsched.lock().unwrap().0.clear(); }
+    for _ in 0..3 { r.settle_and_drain().await; }
+    let max_alloc = crate::util::alloc_max();
+    let mut panicked = false;
+    let result = if task.is_finished() { match task.await { Ok(res) => result_name(&res), Err(e) => if e.is_panic() { panicked = true; "panic".into() } else { "cancelled".into() } } } else { task.abort(); "running".into() };
     let wall_after = wall();
+    let Runner { packets, packet_step, mut call_step, inputs, inputs1, rsa_pairs, token, ka_ids, undecodable, presented, .. } = r;
 
     // merge adapter calls and packets into one ordered event list
     let calls = log.lock().unwrap().clone();
@@ -297,29 +396,28 @@ async fn execute_async(sc: &Scenario, other_key: &rsa::RsaPublicKey) -> Outcome 
     }
     for (ct, pt) in &rsa_pairs { env.push(format!("rsa={}:{}", hex(ct), pt.as_ref().map_or("-".into(), |p| hex(p)))); }
     // oracle classes for every cookie payload the client presented
-    for st in &sc.steps {
-        if let Step::Frame(p) = st {
-            if let Some((key, Some(payload))) = decode::login_cookie_response(p) {
-                if key == b"passage:session" {
-                    let class = match serde_json::from_slice::<Option<SessionCookie>>(&payload) { Ok(Some(_)) => "p", Ok(None) => "n", Err(_) => "i" };
-                    env.push(format!("sess={}:{class}", hex(&payload)));
-                }
-                if payload.len() >= 32 {
-                    let msg = &payload[32..];
-                    match serde_json::from_slice::<AuthCookie>(msg) {
-                        Ok(c) => env.push(format!("cookie={}:{}:{}:{}:{}:{}", hex(msg), c.timestamp, hex(c.client_addr.ip().to_string().as_bytes()), hex(c.user_name.as_bytes()), c.user_id.as_u128(), hex(&serde_json::to_vec(&c.profile_properties).unwrap()))),
-                        Err(_) => env.push(format!("cookie={}:err", hex(msg))),
-                    }
+    for p in &presented {
+        if let Some((key, Some(payload))) = decode::login_cookie_response(p) {
+            if key == b"passage:session" {
+                let class = match serde_json::from_slice::<Option<SessionCookie>>(&payload) { Ok(Some(_)) => "p", Ok(None) => "n", Err(_) => "i" };
+                env.push(format!("sess={}:{class}", hex(&payload)));
+            }
+            if payload.len() >= 32 {
+                let msg = &payload[32..];
+                match serde_json::from_slice::<AuthCookie>(msg) {
+                    Ok(c) => env.push(format!("cookie={}:{}:{}:{}:{}:{}", hex(msg), c.timestamp, hex(c.client_addr.ip().to_string().as_bytes()), hex(c.user_name.as_bytes()), c.user_id.as_u128(), hex(&serde_json::to_vec(&c.profile_properties).unwrap()))),
+                    Err(_) => env.push(format!("cookie={}:err", hex(msg))),
                 }
             }
         }
     }
     if let Some(j) = &auth_cookie_json { env.push(format!("ser={}", hex(j))); }
     env.push(format!("ka={}", ka_ids.iter().map(|x| x.to_string()).collect::<Vec<_>>().join(",")));
-    let request = format!("conn.run secret={} expiry={} max={} addr={} ip={} | {} | {}",
-        sc.secret.as_ref().map_or("-".into(), |s| hex(s)), sc.expiry, sc.max_len, hex(sc.client_addr.to_string().as_bytes()), hex(sc.client_addr.ip().to_string().as_bytes()),
-        env.join(" "), inputs.join(" "));
-    Outcome { request, observed, events, result, auth_cookie_json, wall_before, wall_after, inputs, undecodable, event_steps }
+    let head = format!("secret={} expiry={} max={} addr={} ip={} | {} |",
+        sc.secret.as_ref().map_or("-".into(), |s| hex(s)), sc.expiry, sc.max_len, hex(sc.client_addr.to_string().as_bytes()), hex(sc.client_addr.ip().to_string().as_bytes()), env.join(" "));
+    let request = format!("conn.run {head} {}", inputs.join(" "));
+    let request1 = format!("conn1.run {head} {}", inputs1.join(" "));
+    Outcome { request, observed, events, result, auth_cookie_json, wall_before, wall_after, inputs, undecodable, event_steps, request1, max_alloc, panicked }
 }
 
 fn calls_loc(log: &Log) -> Vec<(Option<String>, String)> {
